@@ -24,7 +24,7 @@ def bases(rng, n, tier):
 
 
 def correspond(ck, cases, impl, stream):
-    got = vlib.run_model("Rich", [A.scenario_tree(b, s) for _, b, s in cases])
+    got = vlib.run_model("Rich", [A.scenario_tree(b, s) for _, b, s in cases], shards=min(vlib.NCPU, max(1, len(cases) // 8)))
     mism, first = 0, None
     for (label, b, s), r, g in zip(cases, impl, got):
         ok = (r[0] == 0 and g.startswith("(0")) or (r[0] == 1 and g == vlib.T(r))
